@@ -5,7 +5,6 @@ NOT_APPLICABLE = {
     "C17": "equality of a computed Merkle root with an independent commitment is value-level; a self-consistent change of hashing leaves every structural rule intact",
     "C18": "reachability of stored tree nodes from the current root over all histories is a property of runtime data, not of code shape",
     "C23": "soundness relates the comparison verdict to validity of all payloads under two schemas; semantic, no structural necessary condition",
-    "C24": "numerical exactness over 192/256-bit values; panic-freedom needs value-range arguments (widening products) that no sound static rule in reach discharges",
     "C26": "truncation of roots/powers is numerical; value-level",
     "C27": "parse/print inverse is a round-trip equality over all strings/values; value-level",
     "C38": "soundness of analyser output against all executions on all ledger states is semantic",
@@ -264,3 +263,9 @@ claim("C25", "finite table agreement: RoundingMode -> resolved direction, extrac
       "towards_zero / away_from_zero / from_midpoint_ordering have the declared sign and midpoint tables; Decimal and PreciseDecimal checked_round "
       "resolve the caller's mode through from_mode and match every resolved strategy, adding on RoundUp and subtracting on RoundDown. The rounded "
       "value itself, overflow reporting and divisibility handling are numerical and not decided.")
+
+claim("C24", "audited panic surface restricted to the named checked operations and conversions (incl. big-integer operator arithmetic)",
+      "Decides the 'none of these operations panics' clause only: the ~200 Checked{Add,Sub,Mul,Div,Neg}/checked_abs bodies of Decimal and PreciseDecimal "
+      "contain no panic-capable construct (abs() is discharged by the `!= MIN` guard); every panic-capable construct in the conversions is in an "
+      "audited table with its range argument. Exactness, truncation toward zero and 'fails exactly when unrepresentable' are numerical and not decided.",
+      level="other")
